@@ -19,6 +19,8 @@ JDir(r, j) ==
           \* normal line of a surface point: same crossings, parameters measured in units of length (|d| integral only)
           \* (the direction is normalised, hence inexact: the count is demanded only where every vertex on the
           \*  line is a proper crossing - touches, open ends and edges along the line are free)
+          \* the direction after a float quarter turn (errors of 1e-17 in its components): same crossings at the same parameters
+          /\ robust => (Len(c.rints) = Cardinality(R) /\ \A a \in 1..Len(c.rints) : Len(c.rints) = Len(c.ints) /\ AbsV(c.rints[a][1] - c.ints[a][1]) <= 2)
           /\ robust => Len(c.sints) = Cardinality(R)
           /\ (nd > 0 /\ robust) => \A a \in 1..Len(c.sints) : Len(c.sints) = Len(c.ints) /\ AbsV(c.sints[a] - nd * c.ints[a][1]) <= 2 * nd + 2)
 
@@ -27,9 +29,17 @@ JCast(r) ==
     /\ Clause(i, "C06.shape", Len(r.out.c) = Len(r.dirs))
     /\ Len(r.out.c) = Len(r.dirs) => \A j \in 1..Len(r.dirs) : JDir(r, j)
 
+\* nearly parallel lines against very long edges: only the intersection lists are judged (big-number path of RayCast.tla)
+JShallow(r) ==
+    /\ Clause(i, "C06.finite", r.out.finite)
+    /\ Clause(i, "C06.shape", Len(r.out.c) = Len(r.dirs))
+    /\ Len(r.out.c) = Len(r.dirs) => \A j \in 1..Len(r.dirs) :
+          ClauseAt("C06.intersections", j, IntersectionsBigOK(r.pts, r.o, r.dirs[j], r.out.c[j].ints, r.qt)
+                                           /\ IntersectionsBigOK(r.pts, r.o, r.dirs[j], r.out.c[j].cints, r.qt))
+
 Judge(r) ==
     /\ Sane(i, r)
-    /\ Ran(r) => CASE r.op = "cast" -> JCast(r) [] r.op = "reset" -> TRUE [] OTHER -> Clause(i, "unknown-op", FALSE)
+    /\ Ran(r) => CASE r.op = "cast" -> JCast(r) [] r.op = "shallow" -> JShallow(r) [] r.op = "reset" -> TRUE [] OTHER -> Clause(i, "unknown-op", FALSE)
 Init == i = 1
 Next == i <= Len(Rec) /\ Judge(Rec[i]) /\ i' = i + 1
 Spec == Init /\ [][Next]_i
